@@ -565,3 +565,66 @@ def rule_PO(run: Run) -> RuleResult:
                 f"filter `{ast.unparse(cond)}` checked on 8 assignments of (in pre-set, in caller, force)" + (f"; failing {bad}" if bad else ""),
                 nec + "; and a key whose value the caller decides must not be dropped (stale cache hit, C01)")
     return res
+
+
+# ------------------------------------------------------------------ R-NK
+def rule_NK(run: Run) -> RuleResult:
+    """Namespace key construction: one prefix per re-keying site."""
+    res = RuleResult("R-NK")
+    repo = run.repo
+    ns = repo.cls("Namespace")
+    f = ns.module.relpath
+    nec = ("options grouped in a namespace must behave exactly like the equivalent fully-qualified Options: every "
+           "member of a (re-parented) namespace gets the same prefix, once (C04)")
+
+    def key_sites(fn, prefix: str, selfkey: str = None):
+        out = []
+        for c in astu.calls_in(fn):
+            nm = astu.short_name(c)
+            if nm == "Option" and c.args and not (isinstance(c.func, ast.Subscript)):
+                out.append((c, c.args[0], "Option key"))
+            elif nm == "Namespace" and c.args:
+                out.append((c, c.args[0], "Namespace key"))
+            elif nm == "_inherit" and c.args:
+                out.append((c, c.args[0], "prefix handed to the nested namespace"))
+            elif nm == "_from_type":
+                for k in c.keywords:
+                    if k.arg == "parent":
+                        out.append((c, k.value, "prefix handed to the nested class"))
+            elif nm in ("build", "option") and c.args and isinstance(c.func, ast.Attribute):
+                out.append((c, c.args[0], f"key handed to _Auto.{nm}"))
+        return out
+
+    def starts_with(e: ast.expr, prefix: str) -> bool:
+        if isinstance(e, ast.Name):
+            return e.id == prefix
+        if isinstance(e, ast.JoinedStr) and len(e.values) >= 3:
+            v0, v1 = e.values[0], e.values[1]
+            return isinstance(v0, ast.FormattedValue) and ast.unparse(v0.value) == prefix and isinstance(v1, ast.Constant) and str(v1.value).startswith(".") \
+                and sum(1 for v in e.values if isinstance(v, ast.FormattedValue)) == 2
+        return False
+
+    plan = {"_from_type": "key", "_inherit": "parent", "__getitem__": "self._key", "_build_doc": "self._key"}
+    n = 0
+    for mname, prefix in plan.items():
+        fn = ns.methods.get(mname)
+        if fn is None:
+            raise AnalysisError(f"Namespace.{mname} not found")
+        for c, e, what in key_sites(fn, prefix):
+            n += 1
+            ok = starts_with(e, prefix)
+            res.add(f"labrea.option.Namespace.{mname}:{what} `{ast.unparse(e)[:40]}` is <{prefix}>.<own key>", ok, f, c.lineno,
+                    f"{ast.unparse(c)[:90]}", nec)
+    ft = ns.methods["_from_type"]
+    ok = any(isinstance(s_, ast.Assign) and ast.unparse(s_.targets[0]) == "key" and ast.unparse(s_.value) == "f'{parent}.{name}' if parent else name" for s_ in ast.walk(ft))
+    res.add("labrea.option.Namespace._from_type:key is parent.name (or name at the root)", ok, f, ft.lineno, "", nec)
+    ev = ns.methods.get("evaluate")
+    ok = ev is not None and [ast.unparse(r.value) for r in ast.walk(ev) if isinstance(r, ast.Return)] == ["get_dotted_key(self._key, self._populate({}, options))"]
+    res.add("labrea.option.Namespace.evaluate:the section under its own key of the populated dictionary", ok, f, ev.lineno if ev else 0, "", nec)
+    pp = ns.methods.get("_populate")
+    t = ast.unparse(pp) if pp else ""
+    ok = "result = member._populate(result, options)" in t and "result = member.set(result, member(options))" in t and "return result" in t
+    res.add("labrea.option.Namespace._populate:members written with Option.set under their qualified keys", ok, f, pp.lineno if pp else 0, "", nec)
+    if n < 8:
+        raise AnalysisError(f"R-NK found only {n} key construction sites in Namespace")
+    return res
